@@ -458,6 +458,10 @@ fn accept(ty: &Ty, p: &Prim) -> R {
         Ty::I32 => match as_int(p) { Some(v) if v >= i32::MIN as i128 && v <= i32::MAX as i128 => Ok(format!("i{}", v)), _ => ty_err() },
         Ty::U64 => match as_int(p) { Some(v) if v >= 0 && v <= u64::MAX as i128 => Ok(format!("u{}", v)), _ => ty_err() },
         Ty::U32 => match as_int(p) { Some(v) if v >= 0 && v <= u32::MAX as i128 => Ok(format!("u{}", v)), _ => ty_err() },
+        Ty::U16 => match as_int(p) { Some(v) if v >= 0 && v <= u16::MAX as i128 => Ok(format!("u{}", v)), _ => ty_err() },
+        Ty::U8 => match as_int(p) { Some(v) if v >= 0 && v <= u8::MAX as i128 => Ok(format!("u{}", v)), _ => ty_err() },
+        Ty::I16 => match as_int(p) { Some(v) if v >= i16::MIN as i128 && v <= i16::MAX as i128 => Ok(format!("i{}", v)), _ => ty_err() },
+        Ty::I8 => match as_int(p) { Some(v) if v >= i8::MIN as i128 && v <= i8::MAX as i128 => Ok(format!("i{}", v)), _ => ty_err() },
         Ty::F64 => match p {
             Prim::F64(v) => Ok(format!("f{}", v.to_bits())), Prim::F32(v) => Ok(format!("f{}", (*v as f64).to_bits())),
             _ => match as_int(p) { Some(v) => Ok(format!("f{}", (v as f64).to_bits())), None => ty_err() },
@@ -507,7 +511,7 @@ fn ref_decode(b: &[u8]) -> String {
     s
 }
 
-fn is_leaf_ty(t: &Ty) -> bool { matches!(t, Ty::Bool | Ty::I64 | Ty::I32 | Ty::U64 | Ty::U32 | Ty::F64 | Ty::F32 | Ty::Str | Ty::Any | Ty::Enum(_)) }
+fn is_leaf_ty(t: &Ty) -> bool { matches!(t, Ty::Bool | Ty::I64 | Ty::I32 | Ty::U64 | Ty::U32 | Ty::U16 | Ty::I16 | Ty::U8 | Ty::I8 | Ty::F64 | Ty::F32 | Ty::Str | Ty::Any | Ty::Enum(_)) }
 
 /// element of the colour pseudo-sequence `["rgb", [r, g, b(, a)]]`
 fn ref_color(t: &Ty, r: u32, g: u32, b: u32, a: Option<u32>) -> Option<R> {
@@ -538,6 +542,9 @@ fn ref_node(c: &Cfg, t: &Ty, n: &BNode) -> Option<R> {
     }
     match n {
         BNode::Leaf(l) => {
+            // a `u16` request on a token id in VALUE position: the sequential paths' `deserialize_u16` shortcut hands
+            // over the raw id, the tape's ValueDeserializer goes through the resolver: a misfit, no claim
+            if matches!((t, l), (Ty::U16, BLeaf::Id(_))) { return None; }
             let p = match leaf_prim(c, l) { Ok(p) => p, Err(e) => return Some(Err(e)) };
             Some(accept(t, &p))
         }
@@ -659,6 +666,7 @@ pub fn value_of_bin(c: &Cfg, ty: &RootTy, d: &BDoc) -> Option<String> {
 // target types that fit a binary document
 
 fn gen_leaf_ty(rng: &mut Rng, l: &BLeaf) -> Ty {
+    if rng.chance(1, 8) { return [Ty::U16, Ty::I16, Ty::U8, Ty::I8, Ty::U16][rng.below(5)].clone(); }
     if rng.chance(1, 30) { return [Ty::Bool, Ty::I64, Ty::I32, Ty::U64, Ty::U32, Ty::F64, Ty::F32, Ty::Str, Ty::Any][rng.below(9)].clone(); }
     match l {
         BLeaf::I32(v) => if *v >= 0 { [Ty::I32, Ty::I64, Ty::F64, Ty::Any, Ty::U32, Ty::U64, Ty::F32][rng.below(7)].clone() } else { [Ty::I32, Ty::I64, Ty::F64, Ty::Any, Ty::I64, Ty::I32, Ty::F32, Ty::U64][{ let k = if rng.chance(1, 8) { 8 } else { 7 }; rng.below(k) }].clone() },
@@ -682,14 +690,16 @@ fn gen_leaf_ty(rng: &mut Rng, l: &BLeaf) -> Ty {
 pub fn key_field_name(l: &BLeaf) -> Option<String> {
     match l {
         BLeaf::Quoted(b) | BLeaf::Unquoted(b) if !b.is_empty() && b.iter().all(|c| c.is_ascii_alphanumeric() || *c == b'_') && !b[0].is_ascii_digit() => Some(String::from_utf8(b.clone()).unwrap()),
-        BLeaf::Id(i) => docgen::id_name(*i).map(|s| s.to_string()),
+        BLeaf::Id(i) => Some(docgen::id_name(*i).map(|s| s.to_string()).unwrap_or_else(|| format!("0x{:x}", i))), // (unresolved: the Stringify name)
         _ => None,
     }
 }
 
 fn gen_fields_ty(rng: &mut Rng, fs: &[BField]) -> Ty {
     let names: Vec<Option<String>> = fs.iter().map(|f| key_field_name(&f.key)).collect();
-    let as_struct = !fs.is_empty() && rng.chance(4, 5);
+    // keys that are unresolved ids are visible only through a map (or a field named after the stringified id)
+    let odd_keys = fs.iter().any(|f| matches!(f.key, BLeaf::Id(i) if docgen::id_name(i).is_none()));
+    let as_struct = !fs.is_empty() && rng.chance(if odd_keys { 2 } else { 4 }, 5);
     if as_struct {
         let mut out: Vec<(String, Ty)> = vec![];
         let mut seen: Vec<String> = vec![];
@@ -753,7 +763,7 @@ pub fn gen_root_ty(rng: &mut Rng, d: &BDoc) -> RootTy {
 fn gen_wild_ty(rng: &mut Rng, depth: usize) -> Ty {
     let r = rng.below(if depth >= 3 { 10 } else { 16 });
     match r {
-        0 => Ty::Bool, 1 => Ty::I64, 2 => Ty::U64, 3 => Ty::I32, 4 => Ty::U32, 5 => Ty::F64, 6 => Ty::F32, 7 => Ty::Str, 8 => Ty::Any, 9 => Ty::Ign,
+        0 => Ty::Bool, 1 => Ty::I64, 2 => if rng.chance(1, 2) { Ty::U64 } else { Ty::U16 }, 3 => if rng.chance(1, 2) { Ty::I32 } else { Ty::I16 }, 4 => if rng.chance(1, 2) { Ty::U32 } else { Ty::U8 }, 5 => if rng.chance(1, 3) { Ty::I8 } else { Ty::F64 }, 6 => Ty::F32, 7 => Ty::Str, 8 => Ty::Any, 9 => Ty::Ign,
         10 => Ty::Opt(Box::new(gen_wild_ty(rng, depth + 1))),
         11 => Ty::Seq(Box::new(gen_wild_ty(rng, depth + 1))),
         12 => Ty::Map(Box::new(gen_wild_ty(rng, depth + 1))),
@@ -945,8 +955,32 @@ pub fn gen_bdoc(g: &mut Gen) -> BDoc {
     // integer / date keys make every struct or map request fail on the key (serde field identifiers and
     // `String` know no signed integer): keep a few, turn the rest into strings or unsigned "index" keys
     rekey(&mut g.rng, &mut bd.fields);
+    if g.rng.chance(1, 4) { odd_ids(&mut g.rng, &mut bd.fields); g.count("doc:with-unresolved-ids-whole-range"); }
     if bd.fields.is_empty() && g.rng.chance(4, 5) { return gen_bdoc(g); }
     bd
+}
+
+/// token ids across the whole u16 range (none of them known to any generated resolver; leading zeros in hex,
+/// neighbours of the 13 lexeme ids, both ends), never one of the lexeme ids themselves
+pub const ODD_IDS: [u16; 22] = [0x0002, 0x0005, 0x0006, 0x0007, 0x0008, 0x0009, 0x000a, 0x000b, 0x0010, 0x0013, 0x0015, 0x00ff, 0x0100, 0x0123,
+    0x0166, 0x0242, 0x0316, 0x0fff, 0x1000, 0x1fff, 0x8000, 0xffff];
+
+fn odd_id(rng: &mut Rng) -> u16 {
+    let i = if rng.chance(3, 4) { *rng.pick(&ODD_IDS) } else { rng.below(0x10000) as u16 };
+    if LexemeId(i).is_id() && docgen::id_name(i).is_none() { i } else { 0x0123 }
+}
+
+/// unresolved ids as keys and as values
+fn odd_ids(rng: &mut Rng, fs: &mut Vec<BField>) {
+    for f in fs.iter_mut() {
+        if rng.chance(1, 4) { f.key = BLeaf::Id(odd_id(rng)); }
+        match &mut f.val {
+            BNode::Leaf(l) => if rng.chance(1, 4) { *l = BLeaf::Id(odd_id(rng)); },
+            BNode::Obj(inner) => odd_ids(rng, inner),
+            BNode::Arr(vs) => { for v in vs.iter_mut() { match v { BNode::Obj(inner) => odd_ids(rng, inner), BNode::Leaf(l) => if rng.chance(1, 6) { *l = BLeaf::Id(odd_id(rng)); }, _ => {} } } }
+            _ => {}
+        }
+    }
 }
 
 fn rekey(rng: &mut Rng, fs: &mut Vec<BField>) {
@@ -1079,6 +1113,19 @@ pub fn gen(g: &mut Gen) {
         g.emit(format!("bde_toks {}", bd));
         g.emit(format!("bde_tapeof {}", bd));
     }
+    // every odd id as a key and as a value, all strategies, resolver knowing none / the pool
+    for id in ODD_IDS {
+        for strat in [FailedResolveStrategy::Error, FailedResolveStrategy::Stringify, FailedResolveStrategy::Ignore] {
+            let c = Cfg { strat, lines: id % 2 == 0, entries: if id % 3 == 0 { vec![] } else { c_all.entries.clone() } };
+            let bd = BDoc { fields: vec![
+                BField { ghosts: 0, key: BLeaf::Id(id), val: BNode::Leaf(BLeaf::Id(id)) },
+                BField { ghosts: 0, key: BLeaf::Id(0x2000), val: BNode::Arr(vec![BNode::Leaf(BLeaf::Id(id)), BNode::Leaf(BLeaf::I32(1))]) } ] };
+            for ty in [RootTy::Plain(Ty::Map(Box::new(Ty::Any))), RootTy::Plain(Ty::Struct(vec![(format!("0x{:x}", id), Ty::Str), ("a".to_string(), Ty::Seq(Box::new(Ty::Any)))]))] {
+                g.emit(format!("bde_spec {} {} {}", show_cfg(&c), show_root(&ty), show_bdoc(&bd)));
+                emit_paths(g, &c, &ty, &render_bdoc(&bd), true);
+            }
+        }
+    }
     g.count("fixed-corners");
 
     // 1. well-formed documents x resolver x strategy x fitting types: all three paths + reference
@@ -1116,6 +1163,16 @@ pub fn gen(g: &mut Gen) {
     }
     g.count("real-struct-docs");
 
+    // narrow integer targets x every value token kind
+    let n4 = g.budget(800, 15_000);
+    for _ in 0..n4 {
+        let (bd, ty) = gen_narrow_case(&mut g.rng);
+        let c = gen_cfg(&mut g.rng);
+        let ty = RootTy::Plain(ty);
+        if value_of_bin(&c, &ty, &bd).is_some() { g.emit(format!("bde_spec {} {} {}", show_cfg(&c), show_root(&ty), show_bdoc(&bd))); g.count("narrow:claimed"); } else { g.count("narrow:u16-on-id-no-claim"); }
+        emit_paths(g, &c, &ty, &render_bdoc(&bd), true);
+    }
+
     // 2. well-formed documents x types drawn blind (model fidelity; no cross-path claim)
     let n2 = g.budget(1500, 30_000);
     for _ in 0..n2 {
@@ -1139,6 +1196,37 @@ pub fn gen(g: &mut Gen) {
         emit_paths(g, &c, &ty, &data, slice_token_level(&raw));
         g.count("illformed:mutated");
     }
+}
+
+/// narrow integer targets over every value token kind: small magnitudes, the range edges of u8/i8/u16/i16 and
+/// the numeric values of lexeme ids (an I64 lexeme is 0x0317 = 791)
+fn gen_narrow_case(rng: &mut Rng) -> (BDoc, Ty) {
+    const VALS: [i64; 22] = [0, 1, 12, 127, 128, 255, 256, 579, 668, 791, 32767, 32768, 65535, 65536, -1, -128, -129, -32768, -32769, 8192, 3, 4];
+    let mut names: Vec<&str> = docgen::KEY_POOL.to_vec();
+    for i in (1..names.len()).rev() { let j = rng.below(i + 1); names.swap(i, j); }
+    let n = 1 + rng.below(6);
+    let mut fs = vec![];
+    let mut decl = vec![];
+    for name in names.into_iter().take(n) {
+        let v = *rng.pick(&VALS);
+        let leaf = match rng.below(11) {
+            0 | 1 => BLeaf::I64(v),
+            2 => match i32::try_from(v) { Ok(x) => BLeaf::I32(x), Err(_) => BLeaf::I64(v) },
+            3 => BLeaf::U32(v.unsigned_abs() as u32),
+            4 => BLeaf::U64(v.unsigned_abs()),
+            5 => BLeaf::F32((v as i32).wrapping_mul(1000).to_le_bytes()),
+            6 => BLeaf::F64((v * 32768).to_le_bytes()),
+            7 => BLeaf::Bool(v & 1 == 1),
+            8 => BLeaf::Quoted(v.to_string().into_bytes()),
+            9 => BLeaf::Id(docgen::key_id(name.as_bytes()).unwrap()),
+            _ => BLeaf::Id(odd_id(rng)),
+        };
+        let key = if rng.chance(1, 2) { BLeaf::Id(docgen::key_id(name.as_bytes()).unwrap()) } else { BLeaf::Unquoted(name.as_bytes().to_vec()) };
+        let t = rng.pick(&[Ty::U16, Ty::U16, Ty::I16, Ty::U8, Ty::I8]).clone();
+        decl.push((name.to_string(), if rng.chance(1, 8) { Ty::Opt(Box::new(t)) } else { t }));
+        fs.push(BField { ghosts: 0, key, val: BNode::Leaf(leaf) });
+    }
+    (BDoc { fields: fs }, Ty::Struct(decl))
 }
 
 fn gen_real_doc(rng: &mut Rng) -> BDoc {
